@@ -7,14 +7,16 @@ class LearnableThermometerThresholding(nn.Module):
     def __init__(self, init_thresholds, slope=10.0):
         super().__init__()
         self.num_thresholds = len(init_thresholds)
+        if not slope > 0:
+            raise ValueError("slope must be positive")
         self.slope = slope
         self._frozen = False  # switch to control hard/soft behavior
 
         init_t = torch.tensor(init_thresholds, dtype=torch.float32)
         first = init_t[:1]
         diffs = torch.diff(init_t, prepend=first.new_zeros(1))
-        if (diffs <= 0).any():
-            raise ValueError("init_thresholds must be positive and strictly increasing")
+        if not (diffs > 0).all() or not torch.isfinite(init_t).all():
+            raise ValueError("init_thresholds must be finite, positive and strictly increasing")
         # get_thresholds() applies softplus to the stored increments, so store its inverse
         # log(exp(d) - 1) (= d for large d) to start exactly at init_thresholds
         raw = torch.where(diffs > 20.0, diffs, torch.log(torch.expm1(diffs)))
